@@ -1535,6 +1535,25 @@ func main() {
 	}
 	fmt.Fprintf(&b, "def visitorName : String := %s\n", leanStr(visitorName))
 	fmt.Fprintf(&b, "def visitorGraphLoops : Nat := %d\n", visitorGraphLoops)
+	// who runs the declaration x invocation pass: it must stay a per-file step (what it derives for a file must
+	// not depend on other files)
+	var passCallers []string
+	for name, fds := range pkgFuncs {
+		for _, fd := range fds {
+			n := 0
+			ast.Inspect(fd.Body, func(x ast.Node) bool {
+				if c, ok := x.(*ast.CallExpr); ok && callName(c) == "markInvokedMethods" {
+					n++
+				}
+				return true
+			})
+			for i := 0; i < n; i++ {
+				passCallers = append(passCallers, name)
+			}
+		}
+	}
+	sort.Strings(passCallers)
+	b.WriteString("def passCallers : List String := " + leanStrList(passCallers) + "\n")
 	fmt.Fprintf(&b, "def visitorReachableGraphLoops : Nat := %d\n", visitorReachLoops)
 	b.WriteString("def visitorReachableLoopFuncs : List String := " + leanStrList(reachedNames) + "\n")
 	fmt.Fprintf(&b, "def entryPointCallsItself : Nat := %d\n", entryRecursive)
